@@ -217,8 +217,25 @@ impl Scenario for FaultScn {
         // ---- recovery: fresh session, fresh handler instance, un-gated view
         let r = w.actor(9, None);
         let mut m_after: Option<u64> = None;
-        let dangling = ext_dangling(w);
-        if let Some(d) = &dangling {
+        let mut dangling = ext_dangling(w);
+        // root cause first: the writer got an error for a put_if_not_exists that took effect (reply
+        // lost) and then deleted the staging manifest it had committed
+        let lost_then_deleted = exec.points.iter().enumerate().any(|(i, p)| {
+            p.call().verb == vstore::Verb::ExtPutIfNotExists
+                && p.ans() == Answer::FailAfter
+                && !w.ext.state().applied_puts.is_empty()
+                && p.call().path.split_once('=').map(|(_, staging)| {
+                    exec.points[i + 1..].iter().any(|q| q.call().verb == vstore::Verb::Delete && q.call().path == staging)
+                }).unwrap_or(false)
+        });
+        if lost_then_deleted {
+            out.push(("lost-put-reply-handled-as-conflict", format!(
+                "the writer's put_if_not_exists took effect but its reply was lost; the writer then deleted the staging manifest it had committed; a fresh open gives: {:?}; {}",
+                catch_async(r.open()).await.map(|r| r.map(|d| d.version().version).map_err(|e| e.to_string().chars().take(160).collect::<String>())),
+                dangling.clone().unwrap_or_default()
+            )));
+            dangling = Some("pruned".into());
+        } else if let Some(d) = &dangling {
             // one structural cause, whatever else was injected: reported under one key, not judged further
             out.push(("ext-dangling", format!("{d}; a fresh open gives: {:?}", catch_async(r.open()).await.map(|r| r.map(|d| d.version().version).map_err(|e| e.to_string().chars().take(160).collect::<String>())))));
         }
@@ -391,7 +408,7 @@ impl Scenario for FaultScn {
             .map(|(oracle, what)| {
                 let key = if oracle.ends_with("-panic") {
                     format!("c01/{}/{}", oracle, last_panic_site())
-                } else if oracle == "ext-dangling" {
+                } else if oracle == "ext-dangling" || oracle == "lost-put-reply-handled-as-conflict" {
                     // which writer step left the mapping dangling: its own cleanup after the (lost) put
                     format!("c01/{}/{}", kind.tag(), oracle)
                 } else if oracle == "detached-became-latest" {
